@@ -15,14 +15,21 @@ padding blanks of the cell format belong to the border decoration, so the premis
     borderless, compact : width >= indentation + (n-1) + 0  + n = indentation + 2n - 1
 (min_width() below).  Narrower terminals are outside the property and never enumerated.
 
-Enumerated space (a union of two complete products, see build_blocks / expand):
+Enumerated space (a union of complete products; the tables P1 / P2 near build_blocks give the exact
+slices per tier and column count, build_blocks / expand enumerate them):
   P1 "distribution": every kind vector over the 8 cell kinds x row configurations (1..3 rows, one
-     deviating row) x header on/off x 4 (style, indentation) pairs on a diagonal x widths
-     (quick: the branch points of that very table, thorough: every width from the minimum up to
-     where everything fits, +1, and 200) x ANSI (only when a tagged cell is present) with one
-     rotating alignment vector;
-  P2 "drawing": a reduced kind alphabet x header on/off x all 4 styles x all 3 indentations x every
-     alignment vector over {left,right,center}^n x ANSI/plain x 3 widths.
+     deviating row whose cells take the contrasting kind DEV[k]) x header on/off x the 4 (style,
+     indentation) pairs (ascii,0) (solid,3) (borderless,8) (compact,0) x widths x ANSI as well when a
+     tagged cell is present, with one rotating alignment vector.  Widths 'branch' (quick, about 16
+     per table and style): the minimum and the next two, both sides of every width at which the
+     short/long split of that very table changes, both sides of the width from which everything
+     fits, 40, 80, 200, one seed-rotated; 'all' (thorough): in addition every width from the minimum
+     to one past the fit width (beyond it the unwrapped table repeats).  quick: n<=3 (n=3: three row
+     configurations, plain only); thorough: n<=3 all widths, n=4 full alphabet at branch widths and
+     the alphabet {empty, two words, 300-char, tagged} at all widths.
+  P2 "drawing": a reduced kind alphabet x 2 rows (second deviating) x header on/off x all 4 styles x
+     all 3 indentations x every alignment vector over {left,right,center}^n x ANSI/plain x 1..3 widths.
+  P2 and P1 with n<=2 render every table twice.
 
 Oracle clauses (signature in brackets):
   * render raises nothing                                   [crash:<exc>@<innermost clikit function>]
@@ -305,7 +312,7 @@ def judge(case, out1, out2, before, after, vis):
                                 n + 1, l))
                     pos0 = False
                     break
-            elif pos != pos0:
+            elif pos != pos0 or l[:pos[0]].strip(" "):
                 bad.append(("separators-misaligned:" + style, "separators stand in different columns", pos0, [pos, l]))
                 pos0 = False
                 break
